@@ -95,6 +95,65 @@ class C09(PipelineProp):
             "non-trivial = distinct completed case with at least one tagged piece"
         )
 
+    # ---- the real command line on real files: which files does it write?
+    CLI_OUTS = ["asm.1.fa", "idTest1.fasta", "tol.3.agp", "y.2.tpf", "w.agp"]
+
+    def cli_cases(self):
+        import re as _re
+        from tola.assembly.parser import parse_agp
+        from tola.fasta.index import FastaIndex
+        from .. import asm as A
+        from .. import cli_util as C
+        from .. import core
+
+        ind = core.BUILD / self.pid / "cli" / "in"
+        for multi in (True, False):
+            fa, agp = C.write_inputs(ind, multi)
+            fai = FastaIndex(fa)
+            fai.auto_load()
+            inp = A.obj_to_assembly(fai.assembly)
+            ptx = A.obj_to_assembly(parse_agp(agp.open(), "pretext"))
+            bpt = None
+            for h in ptx["header"]:
+                m = _re.match(r"HiC MAP RESOLUTION: (\S+) bp/texel", h)
+                if m:
+                    bpt = m.group(1)
+            for out in self.CLI_OUTS:
+                yield {"gen": "cli-files/" + ("multi" if multi else "single"), "cli": {"multi": multi, "out": out},
+                       "input": {"scaffolds": inp["scaffolds"]}, "pretext": {"bpt": bpt, "scaffolds": ptx["scaffolds"]},
+                       "prefix": "SUPER_", "plan": False}
+
+    def generate(self, rng, tier):
+        yield from self.cli_cases()
+        yield from super().generate(rng, tier)
+
+    def run_impl(self, case):
+        obs = P.run_pipeline(case)
+        if "cli" not in case or "err" in obs:
+            return obs
+        import re as _re
+        import shutil
+        from .. import cli_util as C
+        from .. import core
+
+        root = core.BUILD / self.pid / "cli"
+        out = root / "out"
+        shutil.rmtree(out, ignore_errors=True)
+        out.mkdir(parents=True)
+        fa, agp = C.write_inputs(root / "in", case["cli"]["multi"])
+        r = C.run_cli(["-a", fa, "-p", agp, "-o", out / case["cli"]["out"], "--no-write-log", "--no-clobber"])
+        created = [q.rsplit("/", 1)[-1] for q in _re.findall(r"Created: '([^']+)'", r.stderr)]
+        on_disk = sorted(q.name for q in out.iterdir())
+        if sorted(created) != on_disk:
+            return {"harness_error": f"files on disk {on_disk} differ from the files reported created {created}"}
+        rep = [n for n in created if n.endswith(".chr_report.csv")]
+        obs["plan"] = {"name": case["cli"]["out"], "fai": True, "opens": created,
+                       "end": 0 if r.exit_code == 0 else (1 if r.exception is None else 2),
+                       "report": (out / rep[0]).read_bytes().decode("latin-1") if rep else None,
+                       "csvs": [[n, (out / n).read_bytes().decode("latin-1")] for n in created
+                                if n.endswith(".chromosome.list.csv")]}
+        return obs
+
     def gen_case(self, rng):
         two = rng.random() < 0.4
         inp = P.gen_input(rng, style=rng.choice(["tpf", "fasta"]), hap_names=two, nscaf=rng.randint(2, 6))
